@@ -262,10 +262,10 @@ Proof. vm_compute. repeat split; reflexivity. Qed.
         follows the model state — so the coupled runs are all the data-consistent runs, not a selection of schedules;
       - [C11_source_tie_skeleton_runs_are_model_runs]: a coupled run from ProcessFeatures(source, targets, f) is a run
         of the skeleton semantics, matched by an execution of the model that is not longer, ending in related states.
-    NOT STATED: the correspondence of the event lists ([evs] against [label_events]); a bound on the length of the
-    runs of the skeleton semantics (the calls of processMultiPolygon / polygonsToMulti loop over data the skeleton does
-    not follow, so only a bound relative to those loops can hold; not proved — the model's own termination theorems
-    above bound the number of steps that change the model state: [C11_skeleton_model_steps_bounded]). *)
+    NOT STATED: the correspondence of the event lists ([evs] against [label_events]).  Termination: the number of
+    steps that change the model state is bounded by the model's measure ([C11_skeleton_model_steps_bounded]); the
+    length of the whole run is bounded relative to the steps inside processMultiPolygon / polygonsToMulti
+    ([C11_skeleton_terminates_partial], at the end of this file). *)
 From Texel Require Import Pipe.Converse Pipe.ProofsGenConverse.
 
 Theorem C11_source_tie_skeleton_init : forall cfg,
@@ -359,3 +359,52 @@ Example C11_ex_data_ok :
   ~ choice_ok s1 th (CIter None) /\ choice_ok s1 th (CIter (Some 0)) /\ choice_ok (set_rd s1 (RdRun [])) th (CIter None)
   /\ choice_ok s1 (SkeletonSim.rd_th RdClosed) (CBool true).
 Proof. cbv zeta. unfold choice_ok. cbn. repeat split; try discriminate; auto. Qed.
+
+(** ** Termination of the runs of the skeleton semantics — PARTIAL
+
+    [rrun Pg cfg R C W s acts k R2 C2 W2 s2] (Pipe/ConverseRank.v) is a coupled run with the goroutines written out as
+    roles at program points ([gst ts R C W] is the state of the skeleton semantics whose goroutines are [map th_of R]);
+    [k] counts the steps the Snapper takes INSIDE a call of processMultiPolygon or polygonsToMulti.  Every other step
+    either is a step of the model (the model's [measure] drops) or lowers the sum of the ranks of the goroutines
+    ([rank_*], Pipe/ConverseRank.v: the number of silent steps a goroutine can still take before its next step of the
+    model, before it blocks or ends; the spawn loops are counted by the entries still to visit).
+      - [C11_skeleton_ranked_runs_are_coupled_runs]: forgetting the roles gives a coupled run [crun];
+      - [C11_skeleton_ranked_no_schedule_left_out]: a ranked run from the start can be extended by EVERY enabled action
+        whose data choice follows the model state (well-formed configuration: no step panics);
+      - [C11_skeleton_terminates_partial]: length <= k + (8 + 3n) + (33 + 17n) * measure cfg (init cfg), n = number of
+        targets: no schedule makes the skeleton run longer, there is no livelock of local steps, and an infinite run
+        would have to stay for ever inside the loops of processMultiPolygon / polygonsToMulti.
+    MISSING (hence _partial): a bound on [k].  The loops of processMultiPolygon and polygonsToMulti run over data the
+    skeleton does not follow (a slice of polygons, a map of results, `i < l`); in the skeleton semantics their
+    iteration count is a free choice, so no bound holds there; in the Go code each runs as often as its finite
+    slice / map is long.  Also not proved: that the ranked coupling is the only coupling (the bound is stated for
+    the coupling the step lemma constructs, which exists for every data-consistent run). *)
+From Texel Require Import Pipe.ConversePc Pipe.ConverseRank.
+
+Theorem C11_skeleton_ranked_runs_are_coupled_runs : forall cfg acts k R2 C2 W2 s2,
+  let Pg := program gen_pipe_skeleton in
+  rrun Pg cfg [RoMain M0] [] [] (init cfg) acts k R2 C2 W2 s2 ->
+  exists evs, crun Pg cfg (ginit Pg (c_targets cfg)) (init cfg) acts evs (gst (c_targets cfg) R2 C2 W2) s2.
+Proof. exact gen_rrun_is_crun. Qed.
+Print Assumptions C11_skeleton_ranked_runs_are_coupled_runs.
+
+Theorem C11_skeleton_ranked_no_schedule_left_out : forall cfg acts k R2 C2 W2 s2 a g3 ev, wf_config cfg ->
+  let Pg := program gen_pipe_skeleton in
+  rrun Pg cfg [RoMain M0] [] [] (init cfg) acts k R2 C2 W2 s2 ->
+  gstep Pg (gst (c_targets cfg) R2 C2 W2) a = Some (g3, ev) -> data_ok s2 (gst (c_targets cfg) R2 C2 W2) a ->
+  exists R3 C3 W3 s3 pure, g3 = gst (c_targets cfg) R3 C3 W3
+                           /\ rrun Pg cfg [RoMain M0] [] [] (init cfg) (acts ++ [a]) (k + Nat.b2n pure) R3 C3 W3 s3.
+Proof. exact gen_rrun_extend. Qed.
+Print Assumptions C11_skeleton_ranked_no_schedule_left_out.
+
+Theorem C11_skeleton_terminates_partial : forall cfg acts k R2 C2 W2 s2,
+  let Pg := program gen_pipe_skeleton in
+  rrun Pg cfg [RoMain M0] [] [] (init cfg) acts k R2 C2 W2 s2 ->
+  (List.length acts <= k + (8 + 3 * List.length (c_targets cfg))
+                       + (33 + 17 * List.length (c_targets cfg)) * measure cfg (init cfg))%nat.
+Proof. exact gen_rrun_bound. Qed.
+Print Assumptions C11_skeleton_terminates_partial.
+
+(** the start of a ranked run is the call ProcessFeatures(source, targets, f) *)
+Example C11_ex_ranked_start : forall ts, gst ts [RoMain M0] [] [] = ginit (program gen_pipe_skeleton) ts.
+Proof. reflexivity. Qed.
